@@ -2,10 +2,12 @@
 package main
 
 import (
+	"bytes"
 	"errors"
 	"fmt"
 	"io"
 	"net"
+	"sort"
 	"strings"
 	"time"
 
@@ -649,6 +651,79 @@ func timedScenario(p timedProg) *mc.Scenario {
 		}}
 }
 
+// lengthsScenario: one frame of every length in a family (1..64, around every multiple of 1000 / 1024 /
+// 1460 / 4096 up to 70 KB, powers of two +-1) is sent and flushed by a local Close: the peer receives
+// exactly those bytes.  One default schedule per length (the interleavings are covered by the flush
+// scenarios; this one sweeps the size axis).
+func lengthsScenario() *mc.Scenario {
+	set := map[int]bool{}
+	for l := 1; l <= 64; l++ {
+		set[l] = true
+	}
+	for _, unit := range []int{1000, 1024, 1460, 4096} {
+		for n := 1; n*unit <= 70000; n++ {
+			for d := -1; d <= 1; d++ {
+				set[n*unit+d] = true
+			}
+		}
+	}
+	for k := uint(1); k <= 17; k++ {
+		set[1<<k-1], set[1<<k], set[1<<k+1] = true, true, true
+	}
+	var lens []int
+	for l := range set {
+		if l > 0 {
+			lens = append(lens, l)
+		}
+	}
+	sort.Ints(lens)
+	return &mc.Scenario{Name: fmt.Sprintf("session/local-close-flush/one-frame-of-each-of-%d-lengths", len(lens)), PB: [2]int{0, 0}, FB: [2]int{-1, -1}, NoStateCache: true, Horizon: 20000000,
+		Main: func(w *mc.World) {
+			x := newWorld(w)
+			for _, l := range lens {
+				c := newConn(w, "peer", false)
+				s := stcp.NewSession(x.mgr, c)
+				payload := make([]byte, l)
+				for i := range payload {
+					payload[i] = byte(i*7 + l)
+				}
+				s.Start()
+				if err := s.Send(payload); err != nil {
+					w.Failf("Send of a %d-byte frame refused: %v", l, err)
+				}
+				s.Close()
+				vsync.BlockOn(func() bool { return x.h.exits[s] == 1 && c.closed > 0 })
+				w.Touch()
+				if !bytes.Equal(c.peerGot, payload) {
+					w.Failf("a %d-byte frame accepted by Send before the local Close reached the peer as %d bytes (first difference at offset %d)", l, len(c.peerGot), firstDiff(c.peerGot, payload))
+				}
+			}
+			vsync.BlockOn(func() bool {
+				for _, t := range w.S.Threads() {
+					if t.Lib && !t.Finished() {
+						return false
+					}
+				}
+				return true
+			})
+			if n := x.mgr.ConnCount(); n != 0 {
+				w.Failf("all sessions ended but the connection count is %d", n)
+			}
+		}}
+}
+
+func firstDiff(a, b []byte) int {
+	for i := 0; i < len(a) && i < len(b); i++ {
+		if a[i] != b[i] {
+			return i
+		}
+	}
+	if len(a) < len(b) {
+		return len(a)
+	}
+	return len(b)
+}
+
 // mgrOptionsScenario: timeouts given to one manager do not reach another one (all ordered pairs of
 // {default, read 5 s / write 2 s, read 7 s} managers); the timeouts are read off the deadlines that a
 // session of each manager arms on a timed connection at virtual time 0.
@@ -774,7 +849,7 @@ func echoAcceptScenario(nconn int, max int32, pb, fb [2]int) *mc.Scenario {
 }
 
 func scenarios() []*mc.Scenario {
-	scs := []*mc.Scenario{mgrOptionsScenario()}
+	scs := []*mc.Scenario{mgrOptionsScenario(), lengthsScenario()}
 	// flush before local close
 	for k := 0; k <= 3; k++ {
 		scs = append(scs, sessScenario(sessProg{name: fmt.Sprintf("local-close-flush/sends=%d", k), sessions: 1, sends: []string{"ab", "c", "def"}[:k], localClose: true, flush: true, pb: [2]int{3, 4}}))
